@@ -136,6 +136,14 @@ Proof.
     rewrite (beval_total dom _ _ _ (co_store _ _ _ _ _ Hcorr) (Hok cnd Hc)). discriminate.
 Qed.
 
+(* nothing selected: the engine only updates its flags *)
+Lemma notfound_step : k_trans A = [] ->
+  fselect_and_step ex_fixed c l x evf =
+  (upd_flags (upd_flags l (l_spont l) false) (match evf with Some _ => true | None => false end) false, x, RC_MICROSTEPPED).
+Proof.
+  intros E. unfold fselect_and_step. cbn [upd_flags l_cfg]. fold cfg. destruct selection as [Sel _]. rewrite Sel, E. reflexivity.
+Qed.
+
 Lemma p_select_form :
   fst (p_select pv c evp s) =
     {| k_found := k_found A; k_conf := k_conf A; k_target := k_target A; k_exit := ex; k_trans := k_trans A |} /\
